@@ -34,7 +34,7 @@ theorem enumFrom_keys : ∀ (l : List String) (k : Nat), (enumFrom k l).map (·.
 
 /-- candidate lines followed by the ballots line -/
 theorem loadHeader_cands : ∀ (zs : List ((String × Bool × String) × String)) (n : Nat)
-    (cs : List (String × Bool)) (nk : List (String × Nat)) (sc : List (String × HV)) (sys : Summary),
+    (cs : List (String × Bool)) (nk : List (String × Nat)) (sc : Comps) (sys : Summary),
     createSystem sc = .ok sys →
     (nk.map (fun (p : String × Nat) => p.1) ++ zs.map (fun (z : (String × Bool × String) × String) => z.2)).Nodup →
     loadHeader (zs.map (fun p => HLine.cand p.1.2.1 p.2 p.1.1) ++ [HLine.ballotsN n]) cs nk sc
@@ -91,8 +91,7 @@ theorem addVote_fresh : ∀ (bs : List (List Nat × Rat)) (b : List Nat) (w : Ra
 
 /-- what `wfStv` asks of one ballot -/
 def voteOK (nicks : List String) (b : List Nat × Weight) : Bool :=
-  b.1.all (· < nicks.length) && (b.2.spellable || b.2.val = 1) && !(b.2.val = 1 && b.1.isEmpty)
-    && !(b.2.val = 1 && b.1.map (nickAt nicks) = ["end"])
+  b.1.all (· < nicks.length) && (b.2.spellable || !needMult (b.1.map (nickAt nicks)) b.2)
 
 theorem loadVotes_line (nicks : List String) (hn : nicks.Nodup) (b : List Nat × Weight) (hb : voteOK nicks b = true)
     (n : Nat) (rest : List VLine) (i : Nat) (acc : List (List Nat × Rat)) :
@@ -100,38 +99,30 @@ theorem loadVotes_line (nicks : List String) (hn : nicks.Nodup) (b : List Nat ×
       = loadVotes (enumFrom 0 nicks) n rest (i + 1) (addVote acc b.1 b.2.val) := by
   obtain ⟨idx, w⟩ := b
   simp only [voteOK, Bool.and_eq_true, List.all_eq_true, decide_eq_true_eq, Bool.or_eq_true,
-    Bool.not_eq_true', Bool.and_eq_false_iff, decide_eq_false_iff_not] at hb
-  obtain ⟨⟨⟨hidx, hsp⟩, hemp⟩, hend⟩ := hb
+    Bool.not_eq_true'] at hb
+  obtain ⟨hidx, hsp⟩ := hb
   have hlk := lookupNicks_ok nicks hn idx hidx
-  by_cases h1 : w.val = 1
-  · -- no multiplier is written
-    have hne : idx.isEmpty = false := by
-      cases hemp with
-      | inl h => exact absurd h1 h
-      | inr h => exact h
-    have hnotend : ¬ idx.map (nickAt nicks) = ["end"] := by
-      cases hend with
-      | inl h => exact absurd h1 h
-      | inr h => exact h
-    cases hnames : idx.map (nickAt nicks) with
-    | nil =>
-      cases idx with
-      | nil => simp at hne
-      | cons a t => simp at hnames
-    | cons s more =>
-      have hcond : ¬ (s = "end" ∧ more = []) := by
-        intro ⟨e1, e2⟩
-        apply hnotend
-        rw [hnames, e1, e2]
-      rw [hnames] at hlk
-      simp only [voteLine, h1, ne_eq, not_true_eq_false, if_false, hnames, hcond]
-      simp only [loadVotes, hlk, ok_bind]
-  · have hs : w.spellable = true := by
+  cases hm : needMult (idx.map (nickAt nicks)) w with
+  | true =>
+    have hs : w.spellable = true := by
       cases hsp with
       | inl h => exact h
-      | inr h => exact absurd h h1
-    simp only [voteLine, ne_eq, h1, not_false_eq_true, if_true, hs]
+      | inr h => rw [hm] at h; cases h
+    simp only [voteLine, hm, if_true, hs]
     simp only [loadVotes, hlk, ok_bind]
+  | false =>
+    -- no multiplier: the weight is 1 and the line is neither empty nor 'end'
+    simp only [needMult, Bool.or_eq_false_iff, decide_eq_false_iff_not, ne_eq, not_not] at hm
+    obtain ⟨⟨h1, hne⟩, _⟩ := hm
+    cases hnames : idx.map (nickAt nicks) with
+    | nil => rw [hnames] at hne; simp at hne
+    | cons s more =>
+      have hm' : needMult (s :: more) w = false := by
+        rw [← hnames]; simp only [needMult, Bool.or_eq_false_iff, decide_eq_false_iff_not, ne_eq, not_not]
+        exact ⟨⟨h1, hne⟩, by assumption⟩
+      rw [hnames] at hlk
+      simp only [voteLine, hnames, hm', Bool.false_eq_true, if_false]
+      simp only [loadVotes, hlk, ok_bind, h1]
 
 theorem loadVotes_lines (nicks : List String) (hn : nicks.Nodup) (n : Nat) :
     ∀ (bl : List (List Nat × Weight)) (i : Nat) (acc : List (List Nat × Rat)),
@@ -188,9 +179,13 @@ theorem nLettersFrom_spec (n : Nat) : ∀ (fuel k : Nat), n ≤ 26 ^ (k + fuel) 
 
 theorem nLetters_spec (n : Nat) : n ≤ 26 ^ (nLetters n) := by
   unfold nLetters
-  apply nLettersFrom_spec
-  simp only [Nat.zero_add]
-  exact le_of_lt (Nat.lt_pow_self (by norm_num))
+  have h1 : n ≤ 26 ^ (nLettersFrom n n 0) := by
+    apply nLettersFrom_spec
+    simp only [Nat.zero_add]
+    exact le_of_lt (Nat.lt_pow_self (by norm_num))
+  exact le_trans h1 (Nat.pow_le_pow_right (by norm_num) (le_max_right _ _))
+
+theorem nLetters_pos (n : Nat) : 1 ≤ nLetters n := by unfold nLetters; exact le_max_left _ _
 
 theorem ordinalNicks_nodup (n : Nat) : (ordinalNicks n).Nodup := by
   unfold ordinalNicks
@@ -207,7 +202,8 @@ theorem hasDupFrom_nodup : ∀ (l seen : List String), hasDupFrom l seen = false
       simp only [hasDupFrom] at h
       split at h
       · simp at h
-      · rename_i hnot
+      · rename_i hnot0
+        have hnot : s ∉ seen := fun hm => hnot0 (Or.inr hm)
         have := hasDupFrom_nodup t (seen ++ [s]) h (by
           rw [List.nodup_append]
           refine ⟨hs, by simp, ?_⟩
@@ -226,6 +222,36 @@ theorem candidateNicks_nodup (initials : List String) : (candidateNicks initials
     have := hasDupFrom_nodup initials [] (by simpa using h) List.nodup_nil
     simpa using this
 
+
+/-! ### ... and never empty -/
+theorem hasDupFrom_nonempty : ∀ (l seen : List String), hasDupFrom l seen = false → ∀ s ∈ l, s ≠ ""
+  | [], _, _, s, hs => by simp at hs
+  | a :: t, seen, h, s, hs => by
+      simp only [hasDupFrom] at h
+      split at h
+      · simp at h
+      · rename_i hnot
+        rcases List.mem_cons.1 hs with rfl | hm
+        · exact fun e => hnot (Or.inl e)
+        · exact hasDupFrom_nonempty t _ h s hm
+
+theorem ordinalNick_length : ∀ (k i : Nat), (ordinalNick k i).length = k
+  | 0, _ => rfl
+  | k + 1, i => by simp [ordinalNick, ordinalNick_length k]
+
+theorem candidateNicks_nonempty (initials : List String) : ∀ s ∈ candidateNicks initials, s ≠ "" := by
+  unfold candidateNicks
+  split
+  · intro s hs
+    simp only [ordinalNicks, List.mem_map, List.mem_range] at hs
+    obtain ⟨i, _, rfl⟩ := hs
+    intro e
+    have hl := congrArg String.length e
+    simp only [String.length_ofList, ordinalNick_length, String.length_empty] at hl
+    have := nLetters_pos initials.length
+    omega
+  · rename_i h
+    exact hasDupFrom_nonempty initials [] (by simpa using h)
 
 theorem ordinalNicks_length (n : Nat) : (ordinalNicks n).length = n := by simp [ordinalNicks]
 
@@ -248,34 +274,41 @@ theorem zip_map_fst_of_length {α β} : ∀ (a : List α) (b : List β), a.lengt
   | x :: xs, y :: ys, h => by simp [zip_map_fst_of_length xs ys (by simpa using h)]
 
 /-- the collected system settings, `syscomps` -/
-def collect (ls : List (String × SVal)) (acc : List (String × HV)) : List (String × HV) :=
-  ls.foldl (fun a p => compsSet a p.1 p.2) acc
+def collect : List (String × SVal) → Comps → Except Err Comps
+  | [], c => pure c
+  | p :: t, c => do let c' ← compsAdd c p.1 p.2; collect t c'
 
 theorem loadHeader_others : ∀ (ls : List (String × SVal)) (rest : List HLine) (cs : List (String × Bool))
-    (nk : List (String × Nat)) (sc : List (String × HV)),
-    loadHeader (ls.map (fun p => HLine.other p.1 p.2) ++ rest) cs nk sc = loadHeader rest cs nk (collect ls sc)
-  | [], rest, cs, nk, sc => by simp [collect]
-  | p :: t, rest, cs, nk, sc => by
-      simp only [List.map_cons, List.cons_append, loadHeader, collect, List.foldl_cons]
-      exact loadHeader_others t rest cs nk _
+    (nk : List (String × Nat)) (sc sc' : Comps), collect ls sc = .ok sc' →
+    loadHeader (ls.map (fun p => HLine.other p.1 p.2) ++ rest) cs nk sc = loadHeader rest cs nk sc'
+  | [], rest, cs, nk, sc, sc', h => by simp [collect] at h; subst h; simp
+  | p :: t, rest, cs, nk, sc, sc', h => by
+      simp only [collect] at h
+      cases hc : compsAdd sc p.1 p.2 with
+      | error e => rw [hc] at h; simp at h
+      | ok c1 =>
+        rw [hc] at h
+        simp only [ok_bind] at h
+        simp only [List.map_cons, List.cons_append, loadHeader, hc, ok_bind]
+        exact loadHeader_others t rest cs nk c1 sc' h
 
 /-- the header `_dump_system` writes for a supported system is read back by `_create_system` to the same settings -/
 theorem sys_rt (d : SysDoc) (h : wfSys d = true) :
-    ∃ ls, dumpSys d.toSys = .ok ls ∧
-      createSystem (collect (ls ++ (match d.seatsArg with | some n => [("seats", SVal.num n)] | none => [])) [])
-        = .ok d.summary := by
+    ∃ ls c, dumpSys d.toSys = .ok ls ∧
+      collect (ls ++ (match d.seatsArg with | some n => [("seats", SVal.num n)] | none => [])) {} = .ok c ∧
+      createSystem c = .ok d.summary := by
   obtain ⟨title, sf, sa, rnd, q, m⟩ := d
   simp only [wfSys, Bool.and_eq_true, Bool.or_eq_true, decide_eq_true_eq, Bool.not_eq_true', Bool.and_eq_false_iff] at h
   obtain ⟨hq, hs⟩ := h
   rcases hq with rfl | rfl <;> cases title <;> cases sf <;> cases sa <;> cases m <;>
     (first | (simp at hs; done) | skip) <;> rcases rnd with _ | _ | n <;>
-    (refine ⟨_, rfl, ?_⟩; simp [collect, compsSet, createSystem, sysTitle, sysMethod, sysQuotaSel, sysQuota, sysRandom,
-      sysSeats, SysDoc.summary, sysKeys, knownQuotas, List.lookup, SVal.word, SVal.num, bind, Except.bind, pure, Except.pure])
+    (refine ⟨_, _, rfl, rfl, ?_⟩; simp [createSystem, sysTitle, sysMethod, sysQuotaSel, sysQuota, sysRandom,
+      sysSeats, SysDoc.summary, knownQuotas, SVal.word, SVal.num, bind, Except.bind, pure, Except.pure])
 
 theorem load_dump (sd : SysDoc) (hsd : wfSys sd = true) (d : Doc Weight) (h : wfStv d = true) :
-    ∃ hv, dumpStv sd.toSys sd.seatsArg d = .ok hv ∧
+    ∃ hv, dumpStv sd.toSys sd.seatsArg true d = .ok hv ∧
       loadStv hv.1 hv.2 = .ok (eraseDoc d, d.cands.map (fun c => (c.1, c.2.1)), sd.summary) := by
-  obtain ⟨ls, hls, hsys⟩ := sys_rt sd hsd
+  obtain ⟨ls, c, hls, hcol, hsys⟩ := sys_rt sd hsd
   refine ⟨((ls ++ (match sd.seatsArg with | some n => [("seats", SVal.num n)] | none => [])).map (fun p => HLine.other p.1 p.2)
       ++ (d.cands.zip (candidateNicks (d.cands.map (·.2.2)))).map (fun p => HLine.cand p.1.2.1 p.2 p.1.1)
       ++ [HLine.ballotsN d.ballots.length],
@@ -283,7 +316,7 @@ theorem load_dump (sd : SysDoc) (hsd : wfSys sd = true) (d : Doc Weight) (h : wf
   · simp only [dumpStv, hls, ok_bind, pure_eq]
     rfl
   simp only [wfStv, Bool.and_eq_true, decide_eq_true_eq, List.all_eq_true] at h
-  obtain ⟨⟨_, hall⟩, hbn⟩ := h
+  obtain ⟨hall, hbn⟩ := h
   have hnd := candidateNicks_nodup (d.cands.map (·.2.2))
   have hlen : (candidateNicks (d.cands.map (·.2.2))).length = d.cands.length := by
     rw [candidateNicks_length]; simp
@@ -297,7 +330,7 @@ theorem load_dump (sd : SysDoc) (hsd : wfSys sd = true) (d : Doc Weight) (h : wf
     simp only [voteOK, hlen]
     simpa using this
   simp only [loadStv]
-  rw [List.append_assoc, loadHeader_others, loadHeader_cands _ _ [] [] _ _ hsys (by simpa [hzs] using hnd)]
+  rw [List.append_assoc, loadHeader_others _ _ _ _ _ c hcol, loadHeader_cands _ _ [] [] _ _ hsys (by simpa [hzs] using hnd)]
   simp only [ok_bind, List.nil_append, List.length_nil, hzs]
   rw [loadVotes_lines _ hnd d.ballots.length d.ballots 0 [] hok (by simpa using hbn) (by simp)]
   simp only [ok_bind, pure_eq, List.nil_append]
@@ -311,9 +344,7 @@ theorem load_dump (sd : SysDoc) (hsd : wfSys sd = true) (d : Doc Weight) (h : wf
 
 
 /-! ### which exceptions the reader can raise -/
-def StvErr (e : Err) : Prop :=
-  e = Err.parseError ∨ e = Err.notImplemented ∨ e = unmodelled ∨ e = Err.other "ValueError" ∨ e = Err.other "ZeroDivisionError"
-    ∨ e = Err.other "TypeError" ∨ e = Err.other "AttributeError" ∨ e = Err.other "IndexError"
+def StvErr (e : Err) : Prop := e = Err.parseError ∨ e = Err.notImplemented ∨ e = unmodelled
 
 macro "stv_err_cases" h:ident : tactic => `(tactic| (
   repeat' split at $h:ident
@@ -321,8 +352,8 @@ macro "stv_err_cases" h:ident : tactic => `(tactic| (
     | (simp at $h:ident; done)
     | (simp at $h:ident; subst $h:ident; simp [StvErr, unmodelled]; done)))
 
-theorem sysTitle_err (sc) (e : Err) (h : sysTitle sc = .error e) : StvErr e := by
-  unfold sysTitle at h; stv_err_cases h
+theorem compsAdd_err (c k v) (e : Err) (h : compsAdd c k v = .error e) : StvErr e := by
+  unfold compsAdd at h; stv_err_cases h
 theorem sysMethod_err (sc) (e : Err) (h : sysMethod sc = .error e) : StvErr e := by
   unfold sysMethod at h; stv_err_cases h
 theorem sysQuotaSel_err (m sc) (e : Err) (h : sysQuotaSel m sc = .error e) : StvErr e := by
@@ -334,37 +365,31 @@ theorem sysRandom_err (sc) (e : Err) (h : sysRandom sc = .error e) : StvErr e :=
 theorem sysSeats_err (sc) (e : Err) (h : sysSeats sc = .error e) : StvErr e := by
   unfold sysSeats at h; stv_err_cases h
 
-theorem createSystem_err (sc : List (String × HV)) (e : Err) (h : createSystem sc = .error e) : StvErr e := by
+theorem createSystem_err (sc : Comps) (e : Err) (h : createSystem sc = .error e) : StvErr e := by
   unfold createSystem at h
-  by_cases hk : (sc.any (fun c => !sysKeys.contains c.1)) = true
-  · rw [if_pos hk] at h; simp at h; subst h; simp [StvErr]
-  · rw [if_neg hk] at h
-    cases h1 : sysTitle sc with
-    | error e' => simp only [h1, ok_bind, err_bind] at h; cases h; exact sysTitle_err sc _ h1
-    | ok t =>
-      cases h2 : sysMethod sc with
-      | error e' => simp only [h1, h2, ok_bind, err_bind] at h; cases h; exact sysMethod_err sc _ h2
-      | ok m =>
-        cases h3 : sysQuotaSel m sc with
-        | error e' => simp only [h1, h2, h3, ok_bind, err_bind] at h; cases h; exact sysQuotaSel_err m sc _ h3
-        | ok qm =>
-          cases h4 : sysQuota qm.1 with
-          | error e' => simp only [h1, h2, h3, h4, ok_bind, err_bind] at h; cases h; exact sysQuota_err _ _ h4
-          | ok q =>
-            cases h5 : sysRandom sc with
-            | error e' => simp only [h1, h2, h3, h4, h5, ok_bind, err_bind] at h; cases h; exact sysRandom_err sc _ h5
-            | ok r =>
-              cases h6 : sysSeats sc with
-              | error e' => simp only [h1, h2, h3, h4, h5, h6, ok_bind, err_bind] at h; cases h; exact sysSeats_err sc _ h6
-              | ok z => simp only [h1, h2, h3, h4, h5, h6, ok_bind, err_bind, pure_eq] at h; cases h
+  cases h2 : sysMethod sc with
+  | error e' => simp only [h2, ok_bind, err_bind] at h; cases h; exact sysMethod_err sc _ h2
+  | ok m =>
+    cases h3 : sysQuotaSel m sc with
+    | error e' => simp only [h2, h3, ok_bind, err_bind] at h; cases h; exact sysQuotaSel_err m sc _ h3
+    | ok qm =>
+      cases h4 : sysQuota qm.1 with
+      | error e' => simp only [h2, h3, h4, ok_bind, err_bind] at h; cases h; exact sysQuota_err _ _ h4
+      | ok q =>
+        cases h5 : sysRandom sc with
+        | error e' => simp only [h2, h3, h4, h5, ok_bind, err_bind] at h; cases h; exact sysRandom_err sc _ h5
+        | ok r =>
+          cases h6 : sysSeats sc with
+          | error e' => simp only [h2, h3, h4, h5, h6, ok_bind, err_bind] at h; cases h; exact sysSeats_err sc _ h6
+          | ok z => simp only [h2, h3, h4, h5, h6, ok_bind, err_bind, pure_eq] at h; cases h
 
 theorem loadHeader_err : ∀ (hs : List HLine) (cs : List (String × Bool)) (nk : List (String × Nat))
-    (sc : List (String × HV)) (e : Err), loadHeader hs cs nk sc = .error e → StvErr e
+    (sc : Comps) (e : Err), loadHeader hs cs nk sc = .error e → StvErr e
   | [], _, _, _, e, h => by simp [loadHeader] at h; exact Or.inl h.symm
   | .blank :: rest, cs, nk, sc, e, h => by simp only [loadHeader] at h; exact loadHeader_err rest cs nk sc e h
   | .invalid :: _, _, _, _, e, h => by simp [loadHeader] at h; exact Or.inl h.symm
   | .cand w nick name :: rest, cs, nk, sc, e, h => by simp only [loadHeader] at h; exact loadHeader_err rest _ _ sc e h
-  | .candBad :: _, _, _, _, e, h => by simp [loadHeader] at h; subst h; simp [StvErr]
+  | .candBad :: _, _, _, _, e, h => by simp [loadHeader] at h; exact Or.inl h.symm
   | .ballotsN n :: _, _, _, sc, e, h => by
       simp only [loadHeader] at h
       cases hc : createSystem sc with
@@ -377,7 +402,11 @@ theorem loadHeader_err : ∀ (hs : List HLine) (cs : List (String × Bool)) (nk 
       | error e' => rw [hc] at h; simp at h; subst h; exact createSystem_err sc e' hc
       | ok sys => rw [hc] at h; simp at h; exact Or.inl h.symm
   | .order _ :: _, _, _, _, e, h => by simp [loadHeader] at h; subst h; simp [StvErr]
-  | .other _ _ :: rest, cs, nk, sc, e, h => by simp only [loadHeader] at h; exact loadHeader_err rest cs nk _ e h
+  | .other k v :: rest, cs, nk, sc, e, h => by
+      simp only [loadHeader] at h
+      cases hc : compsAdd sc k v with
+      | error e' => rw [hc] at h; simp at h; subst h; exact compsAdd_err sc k v e' hc
+      | ok c1 => rw [hc] at h; simp only [ok_bind] at h; exact loadHeader_err rest cs nk c1 e h
 
 theorem lookupNicks_err (nk : List (String × Nat)) : ∀ (l : List String) (e : Err),
     lookupNicks nk l = .error e → e = Err.parseError
@@ -408,7 +437,6 @@ theorem loadVotes_err (nk : List (String × Nat)) (n : Nat) : ∀ (vs : List VLi
         | error e' => rw [hl] at h; simp at h; subst h; exact Or.inl (lookupNicks_err nk _ _ hl)
         | ok b => rw [hl] at h; simp only [ok_bind] at h; exact loadVotes_err nk n rest _ _ e h
       | multBad => simp at h; exact Or.inl h.symm
-      | multZero => simp at h; subst h; simp [StvErr]
       | word s =>
         simp only at h
         cases hl : lookupNicks nk (s :: more) with
@@ -417,7 +445,7 @@ theorem loadVotes_err (nk : List (String × Nat)) (n : Nat) : ∀ (vs : List VLi
 
 theorem loadStv_err (hs : List HLine) (vs : List VLine) (e : Err) (h : loadStv hs vs = .error e) : StvErr e := by
   simp only [loadStv] at h
-  cases hh : loadHeader hs [] [] [] with
+  cases hh : loadHeader hs [] [] {} with
   | error e' => rw [hh] at h; simp at h; subst h; exact loadHeader_err _ _ _ _ _ hh
   | ok r =>
     obtain ⟨cs, nk, sys, n⟩ := r
